@@ -4,7 +4,9 @@
 package main
 
 import (
+	"fmt"
 	"math"
+	"strings"
 
 	"google.golang.org/protobuf/proto"
 
@@ -331,6 +333,205 @@ func (g *gen) randomIngest() Case {
 		c.Ops = append(c.Ops, Op{K: "refresh"})
 	}
 	return c
+}
+
+// ---------------------------------------------------------------------------
+// sizes around every constant of the anchored code (path.ToStrings' result
+// capacity maxPathLen = 20, the errC capacity 3, ...) and well beyond the
+// sizes the other families use
+
+// longElems: n elements e0..; keysOnLast[i] keys on the i-th of the last elements
+func longElems(n int, keysOnLast ...int) []Elem {
+	es := make([]Elem, n)
+	for i := range es {
+		es[i] = Elem{Name: fmt.Sprintf("e%d", i)}
+	}
+	for i, k := range keysOnLast {
+		j := n - len(keysOnLast) + i
+		if j < 0 || k == 0 {
+			continue
+		}
+		es[j].Keys = map[string]string{}
+		for x := 0; x < k; x++ {
+			// key names sort differently from insertion order
+			es[j].Keys[fmt.Sprintf("k%02d", (x*7)%k)] = fmt.Sprintf("v%d", x)
+		}
+	}
+	return es
+}
+
+func longNames(n int) []string {
+	out := make([]string, n)
+	for i := range out {
+		out[i] = fmt.Sprintf("e%d", i)
+	}
+	return out
+}
+
+func intList(n int) TV {
+	v := TV{K: "leaflist"}
+	for i := 0; i < n; i++ {
+		v.L = append(v.L, TV{K: "int", I: int64(i % 3)})
+	}
+	return v
+}
+
+func deepJSON(depth int) string {
+	return strings.Repeat("[", depth) + "1" + strings.Repeat("]", depth)
+}
+
+// longPaths: path shapes whose index strings end below, at and above 20
+func longPaths() []*GPath {
+	var out []*GPath
+	for _, n := range []int{17, 18, 19, 20, 21, 24} {
+		out = append(out, &GPath{Elems: longElems(n)})
+		for _, ks := range [][]int{{1}, {2}, {3}, {2, 2}, {1, 2, 3}} {
+			out = append(out, &GPath{Elems: longElems(n, ks...)})
+		}
+	}
+	for _, k := range []int{1, 2, 3, 18, 19, 20, 21, 25} {
+		out = append(out, &GPath{Elems: longElems(1, k)}, &GPath{Elems: longElems(3, k)})
+	}
+	for _, n := range []int{19, 20, 21, 22} {
+		out = append(out, &GPath{Element: longNames(n)})
+	}
+	return out
+}
+
+func longFamilies(emit func(Case)) {
+	targets := []string{"t1", "t2"}
+	t1 := &GPath{Target: "t1"}
+	iv := TV{K: "int", I: 1}
+	// ingest: one long path per cache: update, update again, wildcard delete under it, refresh
+	for i, ph := range longPaths() {
+		c := Case{Family: "ingest-long", Kind: "ingest", Targets: targets, NoEvent: i%2 == 1}
+		del := GPath{Elems: append(append([]Elem{}, ph.Elems...), Elem{Name: "*"})}
+		if len(ph.Elems) == 0 {
+			del = GPath{Element: ph.Element}
+		}
+		c.Ops = []Op{
+			{K: "msg", N: &Noti{TS: 1, Prefix: t1, Upd: []Upd{{Path: ph, Val: iv}}}},
+			{K: "msg", N: &Noti{TS: 2, Prefix: t1, Upd: []Upd{{Path: ph, Val: TV{K: "int", I: 2}}}}},
+			{K: "msg", N: &Noti{TS: 3, Prefix: &GPath{Target: "t1", Origin: "o"}, Upd: []Upd{{Path: ph, Val: iv}}}},
+			{K: "msg", N: &Noti{TS: 4, Prefix: t1, Del: []GPath{del}}},
+			{K: "msg", N: &Noti{TS: 5, Prefix: t1, Atomic: true, Upd: []Upd{{Path: ph, Val: iv}}}},
+			{K: "refresh"},
+		}
+		emit(c)
+	}
+	// long prefixes (19..22 names, Elem and deprecated Element) plus a short or keyed path
+	for _, n := range []int{18, 19, 20, 21, 22} {
+		for _, ph := range []*GPath{nil, {Elems: names("x")}, {Elems: longElems(1, 2)}, {Elems: longElems(2, 3)}, {Element: []string{"x", "y"}}} {
+			for _, pf := range []*GPath{{Target: "t1", Elems: longElems(n)}, {Target: "t1", Origin: "o", Elems: longElems(n, 2)}, {Target: "t1", Element: longNames(n)}} {
+				emit(Case{Family: "ingest-long", Kind: "ingest", Targets: targets, Ops: []Op{
+					{K: "msg", N: &Noti{TS: 1, Prefix: pf, Upd: []Upd{{Path: ph, Val: iv}}}},
+					{K: "msg", N: &Noti{TS: 2, Prefix: pf, Atomic: true, Upd: []Upd{{Path: ph, Val: iv}}}},
+				}})
+			}
+		}
+	}
+	// many updates / deletes in one notification, long leaf-lists, deep JSON
+	for _, nu := range []int{0, 1, 2, 50} {
+		for _, nd := range []int{0, 1, 2, 50} {
+			n := &Noti{TS: 2, Prefix: t1}
+			for i := 0; i < nu; i++ {
+				n.Upd = append(n.Upd, Upd{Path: &GPath{Elems: names("m", fmt.Sprintf("u%d", i%40))}, Val: TV{K: "int", I: int64(i)}})
+			}
+			for i := 0; i < nd; i++ {
+				n.Del = append(n.Del, GPath{Elems: names("m", fmt.Sprintf("u%d", (i*3)%45))})
+			}
+			emit(Case{Family: "ingest-long", Kind: "ingest", Targets: targets, Ops: []Op{
+				{K: "msg", N: &Noti{TS: 1, Prefix: t1, Upd: []Upd{{Path: &GPath{Elems: names("m", "u3")}, Val: iv}}}},
+				{K: "msg", N: n}, {K: "refresh"}}})
+		}
+	}
+	lists := []TV{intList(0), intList(1), intList(99), intList(100), {K: "json", S: deepJSON(300)}, {K: "jsonietf", S: deepJSON(300)},
+		{K: "leaflist", L: []TV{intList(100), intList(1)}}}
+	for i, v := range lists {
+		for j, w := range lists {
+			emit(Case{Family: "ingest-long", Kind: "ingest", Targets: targets, NoEvent: (i+j)%2 == 1, Ops: []Op{
+				{K: "msg", N: &Noti{TS: 1, Prefix: t1, Upd: []Upd{{Path: &GPath{Elems: names("l")}, Val: v}}}},
+				{K: "msg", N: &Noti{TS: 2, Prefix: t1, Upd: []Upd{{Path: &GPath{Elems: names("l")}, Val: w}}}},
+			}})
+		}
+	}
+
+	// Subscribe: long prefixes / entry paths, 0 / 1 / 30 entries, relayed long notifications first
+	lp := longPaths()
+	for i, ph := range lp {
+		for _, mode := range []int32{0, 1, 2} {
+			if (i+int(mode))%2 == 0 && mode != 0 {
+				continue
+			}
+			q := &Req{Recv: "msg", Kind: "subscribe", Prefix: &GPath{Target: "t1"}, Mode: mode, Peer: true, Stats: i%2 == 0,
+				Targets: targets, Subs: []*GPath{ph}, HasSubs: []bool{true},
+				Setup: []Noti{{TS: 1, Prefix: t1, Upd: []Upd{{Path: ph, Val: iv}}}}}
+			emit(Case{Family: "sub-long", Kind: "sub", Ops: []Op{{K: "req", Q: q}}})
+		}
+	}
+	for _, n := range []int{18, 19, 20, 21, 22} {
+		for _, mode := range []int32{0, 1} {
+			for _, pf := range []*GPath{{Target: "t1", Elems: longElems(n)}, {Target: "t1", Elems: longElems(n, 2)}, {Target: "*", Element: longNames(n)}} {
+				q := &Req{Recv: "msg", Kind: "subscribe", Prefix: pf, Mode: mode, Peer: true, Targets: targets,
+					Subs: []*GPath{{Elems: longElems(1, 2)}, {}, {Elems: longElems(2, 3)}}, HasSubs: []bool{true, true, true},
+					Setup: []Noti{{TS: 1, Prefix: pf, Upd: []Upd{{Path: &GPath{Elems: longElems(1, 2)}, Val: iv}}}}}
+				if pf.Target == "*" {
+					q.Setup = nil
+				}
+				emit(Case{Family: "sub-long", Kind: "sub", Ops: []Op{{K: "req", Q: q}}})
+			}
+		}
+	}
+	for _, ns := range []int{0, 1, 30} {
+		for _, mode := range []int32{0, 1, 2} {
+			q := &Req{Recv: "msg", Kind: "subscribe", Prefix: &GPath{Target: "t1"}, Mode: mode, Peer: true, Targets: targets}
+			for i := 0; i < ns; i++ {
+				q.Subs = append(q.Subs, &GPath{Elems: names("a", fmt.Sprintf("s%d", i%7))})
+				q.HasSubs = append(q.HasSubs, i%11 != 5)
+			}
+			emit(Case{Family: "sub-long", Kind: "sub", Ops: []Op{{K: "req", Q: q}}})
+		}
+	}
+
+	// responses: long paths / prefixes, 50 updates, long leaf-lists, deep JSON (typed and deprecated)
+	var big []Upd
+	for i := 0; i < 50; i++ {
+		big = append(big, Upd{Path: &GPath{Elems: names("m", fmt.Sprintf("u%d", i%40))}, Val: TV{K: "int", I: int64(i)}})
+	}
+	var bigDel []GPath
+	for i := 0; i < 50; i++ {
+		bigDel = append(bigDel, GPath{Elems: names("m", fmt.Sprintf("u%d", (i*3)%45))})
+	}
+	var scripts [][]Op
+	for i, ph := range lp {
+		if i%2 == 1 {
+			continue
+		}
+		scripts = append(scripts, []Op{
+			{K: "resp", R: &Resp{K: "update", N: &Noti{TS: 1, Prefix: &GPath{Target: "t"}, Upd: []Upd{{Path: ph, Val: iv}}}}},
+			{K: "resp", R: &Resp{K: "sync"}},
+			{K: "resp", R: &Resp{K: "update", N: &Noti{TS: 2, Prefix: &GPath{Target: "t", Elems: longElems(19, 2)}, Upd: []Upd{{Path: ph, Val: iv}}, Del: []GPath{*ph}}}},
+		})
+	}
+	scripts = append(scripts,
+		[]Op{{K: "resp", R: &Resp{K: "update", N: &Noti{TS: 1, Prefix: &GPath{Target: "t"}, Upd: big}}}, {K: "resp", R: &Resp{K: "sync"}},
+			{K: "resp", R: &Resp{K: "update", N: &Noti{TS: 2, Prefix: &GPath{Target: "t"}, Del: bigDel}}}},
+		[]Op{{K: "resp", R: &Resp{K: "sync"}}, {K: "resp", R: &Resp{K: "update", N: &Noti{TS: 1, Prefix: &GPath{Target: "t"}, Upd: big, Del: bigDel}}}})
+	for _, v := range lists {
+		scripts = append(scripts, []Op{
+			{K: "resp", R: &Resp{K: "update", N: &Noti{TS: 1, Prefix: &GPath{Target: "t"}, Upd: []Upd{{Path: &GPath{Elems: names("l")}, Val: v}}}}},
+			{K: "resp", R: &Resp{K: "sync"}},
+			{K: "resp", R: &Resp{K: "update", N: &Noti{TS: 2, Prefix: &GPath{Target: "t"}, Upd: []Upd{{Path: &GPath{Elems: names("l")}, Val: TV{K: "nil"}, Dep: &Dep{Enc: 0, B: deepJSON(300)}}}}}},
+		})
+	}
+	for i, sc := range scripts {
+		emit(Case{Family: "recv-long", Kind: "recv", QT: []string{"once", "poll", "stream"}[i%3], Ops: sc})
+		emit(Case{Family: "cli-long", Kind: "cli", DT: []string{"group", "single", "proto"}[i%3], QT: []string{"stream", "once"}[i%2], TS: i%4 == 0, Ops: sc})
+		if i%3 == 0 {
+			emit(Case{Family: "cli-long", Kind: "cli", DT: "group", QT: "stream", Ops: sc})
+			emit(Case{Family: "mgr-long", Kind: "mgr", Ops: sc})
+		}
+	}
 }
 
 // ---------------------------------------------------------------------------
